@@ -32,7 +32,7 @@ WORKERS = {'quick': 10, 'thorough': 12}
 BUDGET_S = {'quick': 70, 'thorough': 600}
 NUMBA_THREADS = 16
 REQUIRED_COUNTERS = ['runs', 'results_vs_welch', 'accumulators_vs_exact_sums', 'batch_events', 'ids_logged', 'update_calls', 'update_overlaps_observed', 'thread_switches_observed',
-                     'faults_injected', 'faults_reraised', 'yield_injection_runs', 'yield_injection_line_events', 'multi_run_sequences', 'thread_count_variations']
+                     'faults_injected', 'faults_reraised', 'yield_injection_runs', 'yield_injection_line_events', 'multi_run_sequences', 'thread_count_variations', 'stress_cases']
 RULE = ('a case = (sizes of the two sets 1..600 (equal, very unequal, one-trace tails), batch size 1..N, 1-30 samples, trace dtype, frame form, 0-2 row-wise '
         'preprocesses, precision, 1-3 run() calls, schedule perturbation (none | per-batch delays skewed to one thread | switch interval 1e-6 | numba threads '
         '1..16 | sys.monitoring yield injection), fault (none | exception of 4 types in thread i at batch j)); non-trivial = result compared with the exact '
@@ -53,6 +53,8 @@ def cases(tier, seed):
             for regime in ('E', 'R'):
                 out.append(dict(gen='tt', pert=pert, precision=prec, regime=regime, fault=None, sub=core.subseed('C09', seed, k), must=True))
                 k += 1
+    for j in range(6 if tier == 'quick' else 60):
+        out.append(dict(gen='tt', pert=['threads', 'none', 'threads'][j % 3], precision='float64', regime='E', fault=None, stress=True, sub=core.subseed('C09s', seed, j), must=j < 4))
     for thread in (0, 1):
         for where in ('first', 'middle', 'last'):
             for exc in ('ValueError', 'RuntimeError', 'Custom', 'ZeroDivisionError'):
@@ -142,6 +144,12 @@ def run_case(case):
     else:
         n1, n2 = int(rng.integers(1, 400)), int(rng.integers(1, 400))
     T = int(rng.integers(1, 31))
+    stress = bool(case.get('stress'))
+    if stress:
+        # thousands of traces per batch and very narrow or very wide frames: long kernel launches, so that racy iterations really overlap
+        n1 = n2 = int(rng.choice([3000, 8000]))
+        T = int(rng.choice([1, 2, 3, 200, 800]))
+        t.count('stress_cases')
     nruns = int(rng.choice([1, 1, 2, 3]))
     if fault:
         nruns = 2 if fault['after_good_run'] else 1
@@ -150,6 +158,12 @@ def run_case(case):
     if bs == 1 and n1 + n2 > 400:
         bs = 5
     tdt = ['int16', 'int32', 'uint16', 'float32', 'float64'][int(rng.integers(5))]
+    off2 = 1000
+    if stress:
+        bs = int(rng.choice([n1, n1, 1000, 2500]))
+        tdt = ['int32', 'float64', 'float32'][int(rng.integers(3))]
+        off2 = 100000
+        nruns = 1
     # samples: column `cid` carries the unique id, the others the leakage
     L = T + 1 + int(rng.integers(0, 4))
     cid = 0
@@ -177,7 +191,7 @@ def run_case(case):
     s1 = body1.astype(tdt)
     s2 = body2.astype(tdt)
     s1[:, cid] = np.arange(n1)
-    s2[:, cid] = 1000 + np.arange(n2)
+    s2[:, cid] = off2 + np.arange(n2)
     # frame: its first element is the id column
     others = [c for c in range(1, L)]
     fk = int(rng.integers(6))
@@ -215,7 +229,7 @@ def run_case(case):
     @scared.preprocess
     def spy(traces):
         ids = traces[:, 0].astype(int).tolist()
-        which = 1 if ids and ids[0] >= 1000 else 0
+        which = 1 if ids and ids[0] >= off2 else 0
         with _lock:
             k = next(_seq)
             events.append((k, threading.current_thread(), which, ids, threading.current_thread() is threading.main_thread()))
@@ -340,7 +354,7 @@ def run_case(case):
     th_events = [e for e in events if not e[4]]
     t.count('batch_events', len(th_events))
     upto = [cuts1[-1], cuts2[-1]] if not fault else None
-    for which, n_set, base in ((0, n1, 0), (1, n2, 1000)):
+    for which, n_set, base in ((0, n1, 0), (1, n2, off2)):
         ids = [i for e in th_events if e[2] == which for i in e[3]]
         t.count('ids_logged', len(ids))
         if fault:
@@ -355,7 +369,7 @@ def run_case(case):
     # (the accumulator object is the thread object and is restarted for the next run, so this also holds across runs)
     t.check(all(len(v) == 1 for v in by_thread.values()), 'thread_saw_both_sets', lambda: dict(info, threads={str(id(k)): sorted(v) for k, v in by_thread.items()}))
     for e in th_events:
-        t.check(all((i >= 1000) == (e[2] == 1) for i in e[3]), 'batch_mixes_the_two_sets', lambda: dict(info, ids=e[3][:20]))
+        t.check(all((i >= off2) == (e[2] == 1) for i in e[3]), 'batch_mixes_the_two_sets', lambda: dict(info, ids=e[3][:20]))
     if not fault:
         acc = an.accumulators
         t.check(int(acc[0].processed_traces) == n1 and int(acc[1].processed_traces) == n2, 'processed_traces_differs_from_set_size',
